@@ -45,6 +45,9 @@ func (r *runner) report(id string, hs []*harnessRun, t0 time.Time, noReplay bool
 	outside := map[string]int{}
 	seq := 0
 
+	if r.deadlineHit {
+		inconclusive = append(inconclusive, "wall-clock budget exhausted before all paths were explored")
+	}
 	for _, h := range hs {
 		totalPaths += h.paths
 		totalDecisions += h.decisions
@@ -133,7 +136,7 @@ func (r *runner) report(id string, hs []*harnessRun, t0 time.Time, noReplay bool
 					samples = append(samples, map[string]interface{}{"harness": h.name, "kind": "counterexample (replayed natively)", "label": label, "inputs": compactValues(v.Values)})
 				}
 			} else {
-				inconclusive = append(inconclusive, fmt.Sprintf("%s: counterexample for %q did not reproduce natively (native: %s): encoding/stub mismatch, kept at %s", h.name, label, nr.result, f))
+				inconclusive = append(inconclusive, fmt.Sprintf("%s: counterexample for %q did not reproduce natively (native: %s): encoding/stub mismatch, kept at %s; executor said: %s", h.name, label, nr.result, f, firstLine(v.Msg)))
 			}
 		}
 
